@@ -55,10 +55,9 @@ def rules_for(pid):
         "C03": [
             ("H-register-first", lambda c: RH.h_register_first(c.P, c.E, c.H), 20),
             ("H-complete", lambda c: RH.h_complete(c.P, c.E, c.H, scope_c03), 14),
-            ("H-error", lambda c: RH.h_error(c.P, c.E, c.H, scope_c03), 14),
         ],
         "C04": [
-            ("H-error", lambda c: RH.h_error(c.P, c.E, c.H, lambda t: not scope_c03(t)), 40),
+            ("H-error", lambda c: RH.h_error(c.P, c.E, c.H), 55),
             ("R1", lambda c: RH.r1_retry_drops_first(c.P, c.E, c.H), 3),
             ("H-role-agreement", lambda c: RH.h_role_agreement(c.P, c.E, c.H), 50),
             ("H-complete", lambda c: RH.h_complete(c.P, c.E, c.H, scope_c04), 5),
